@@ -1,0 +1,10 @@
+//go:build verif
+
+package otp
+
+// This file is compiled only with -tags verif (see verif_hooks.go).
+
+// VerifRegistry returns the suite registry itself (not a copy) as an untyped value, so that an external
+// harness can compare its complete contents before and after calls, whatever its concrete type is.
+// It changes no behaviour of the package.
+func VerifRegistry() any { return knownSuites }
